@@ -44,8 +44,10 @@ TIE = {
     'gen_dir': 'MalVerif/Py/GenNeo4j',
     'gen_modules': MODULE_ORDER,
     'chain': ['MalVerif.Py.AbsNeo4j', 'MalVerif.Py.TieNeo4jModel', 'MalVerif.Py.TieNeo4jGraph',
-              'MalVerif.Py.TieNeo4jGet', 'MalVerif.PropsGen.C19'],
+              'MalVerif.Py.TieNeo4jGet', 'MalVerif.Py.TieNeo4jGetPair', 'MalVerif.Py.TieNeo4jGetFull',
+              'MalVerif.Py.TieNeo4jStore', 'MalVerif.PropsGen.C19'],
     'needs': {'C19': ['MalVerif.Py.TieNeo4jModel', 'MalVerif.Py.TieNeo4jGraph', 'MalVerif.Py.TieNeo4jGet',
+                      'MalVerif.Py.TieNeo4jGetPair', 'MalVerif.Py.TieNeo4jGetFull', 'MalVerif.Py.TieNeo4jStore',
                       'MalVerif.PropsGen.C19']},
     'sources': {'C19': 'ingestors/neo4j.py: ingest_model, ingest_attack_graph, get_model (py2neo Graph / Node / '
                        'Relationship / Subgraph / transactions / the two Cypher queries are the recording database of '
